@@ -86,7 +86,7 @@ pub fn gen_probe_spec(c: &mut Chooser, allow_dispose: bool) -> ProbeSpec {
             policy.push(
                 [React::Terminate, React::Terminate, React::Error, React::PullTerminate, React::PullError][c.choose(5)],
             );
-            ProbeSpec { policy, rest: base, pull_cap: 1000, attach: None }
+            ProbeSpec { policy, rest: base, pull_cap: 1000, attach: None, late_pulls: false }
         },
         _ => {
             let n = 1 + c.choose(6);
@@ -112,7 +112,7 @@ pub fn gen_probe_spec(c: &mut Chooser, allow_dispose: bool) -> ProbeSpec {
                 policy.push(r);
             }
             let rest = [React::Nothing, React::Pull][c.choose(2)];
-            ProbeSpec { policy, rest, pull_cap: 1000, attach: None }
+            ProbeSpec { policy, rest, pull_cap: 1000, attach: None, late_pulls: false }
         },
     }
 }
@@ -335,6 +335,14 @@ pub fn gen_case_sized(c: &mut Chooser, op: &str, prop: &str, small: bool) -> Cas
             probe_specs[i].attach = Some((c.choose(3) as u8, 1 + c.choose(3), j));
         }
     }
+    if let (Topo::FromIter(_), "C15") = (&topo, prop) {
+        // robustness clauses of C15: "signals completion exactly once", "does nothing once disposed"
+        // are also exercised with Pulls that arrive after the end / after the disposal
+        for p in probe_specs.iter_mut() {
+            p.late_pulls = c.chance(1, 2);
+            p.pull_cap = p.pull_cap.min(40);
+        }
+    }
     if let Topo::FromIter(None) = &topo {
         for p in probe_specs.iter_mut() {
             p.pull_cap = 5 + c.choose(30);
@@ -388,6 +396,11 @@ pub fn enabled(b: &Built, spec: &CaseSpec) -> Vec<(Act, u32)> {
     for (pi, p) in b.probes.iter().enumerate() {
         if !p.is_subscribed() {
             v.push((Act::Subscribe(pi), w[5]));
+        } else if !p.can_act() && b.probe_specs[pi].late_pulls {
+            let e = b.world.edge(p.edge());
+            if e.greeted > 0 && (e.down_term || e.up_term) && (e.pulls_up as usize) < b.probe_specs[pi].pull_cap {
+                v.push((Act::ProbeAct(pi, React::LatePull), w[2]));
+            }
         } else if p.can_act() {
             if spec.credit_env {
                 let e = b.world.edge(p.edge());
